@@ -251,6 +251,11 @@ impl World {
     ) -> World {
         let _ = std::fs::remove_dir_all(&cfg.dir);
         krill::verif::set_queue_clock_offset_ms(0);
+        // transport faults armed for an earlier world of this process
+        crate::remote::LOSE_REPLY_AT.store(
+            -1, std::sync::atomic::Ordering::SeqCst);
+        crate::remote::UNREACHABLE.store(
+            false, std::sync::atomic::Ordering::SeqCst);
         let w = Self::build(cfg, tweak);
         let uris = api::admin::PublicationServerUris {
             rrdp_base_uri: uri::Https::from_string(
@@ -306,6 +311,11 @@ impl World {
         let remote = self.remote.take();
         drop(self);
         let mut w = World::open(cfg);
+        if remote.is_some() {
+            crate::remote::register(
+                &format!("https://{}/", w.cfg.host),
+                w.krill.clone(), w.actor.clone());
+        }
         w.remote = remote;
         w
     }
@@ -325,6 +335,10 @@ impl World {
             crate::remote::register(
                 &format!("https://{}/", crate::remote::HOST2),
                 r.krill.clone(), r.actor.clone());
+            // CAs of the second instance may have parents in this one
+            crate::remote::register(
+                &format!("https://{}/", self.cfg.host),
+                self.krill.clone(), self.actor.clone());
             self.remote = Some(Box::new(r));
         }
         self.remote.as_ref().unwrap()
@@ -455,6 +469,15 @@ impl World {
             for ca in cas {
                 let _ = k.ca_manager().cas_schedule_refresh_single(ca, k);
             }
+        }
+        if let Some(r) = &self.remote {
+            // with another server in play a "round of synchronisations" is
+            // every CA of both instances calling its parents and its
+            // publication server (a failed exchange with a remote server is
+            // retried by krill after minutes, beyond the quiescence horizon)
+            r.schedule_sync_all();
+            let _ = k.ca_manager().cas_schedule_repo_sync_all(k);
+            let _ = r.krill.ca_manager().cas_schedule_repo_sync_all(&r.krill);
         }
     }
 
@@ -850,8 +873,17 @@ pub fn quiesce_with(
                     // nothing runs concurrently in the stand-in
                     return false
                 }
+                // the other party's daemon does its background work too
+                if let Some(run) = w.remote.as_mut().and_then(|r| r.step()) {
+                    n += 1;
+                    if run.fatal().is_some() && !f(w, &run) { return false }
+                    continue
+                }
                 let now = w.queue_now_ms();
-                let next = w.pending().into_iter().map(|p| p.0).min();
+                let next = w.pending().into_iter().map(|p| p.0)
+                    .chain(w.remote.iter().flat_map(|r| {
+                        r.pending().into_iter().map(|p| p.0)
+                    })).min();
                 match next {
                     Some(ts) if (ts as i128 - now as i128) <= budget_ms => {
                         let gap = (ts as i128 - now as i128).max(0) + 1;
